@@ -5,7 +5,7 @@ from . import decls as D
 
 I64 = (1 << 63) - 1
 
-CORPUS_VERSION = 14
+CORPUS_VERSION = 16
 
 AS = ['match', 'table', None, 'auto']  # None = parameter omitted (auto); 'auto' = written explicitly
 IT_G = ['range', 'next_and_back', 'table', 'table_inline', None, 'auto']
@@ -184,7 +184,9 @@ def build(tier, seed):
         for evis in ['pub', 'pub(crate)', '', 'pub(super)', 'pub(in crate::MOD)']:
             d = D.make_decl(r, label, vals, 'asc', 'explicit', 'default', rnd, vis=evis)
             for pv in [None, '', 'pub(crate)', 'pub']:
-                for named in [False, True]:
+                for named in [False, True, 'dunder']:
+                    if named == 'dunder' and not (pv in (None, 'pub') and evis in ('pub', '')):
+                        continue
                     params = {}
                     for f in D.HAS_NAME_VIS:
                         p = {}
@@ -198,9 +200,11 @@ def build(tier, seed):
                                 fpv = None
                         if fpv is not None:
                             p['vis'] = fpv
-                        if named:
+                        if named == 'dunder':
+                            p['name'] = '__' + f.lower() + '_'       # a user may choose a name that looks like a helper's
+                        elif named:
                             p['name'] = ('my_' + f.lower() + ('_ß' if f in ('next', 'as_str', 'iter') else '')) if f not in ('MIN', 'MAX') else {'MIN': 'My_Min', 'MAX': 'my_max'}[f]
-                        if named and f in D.HAS_STRUCT_NAME:
+                        if named is True and f in D.HAS_STRUCT_NAME:
                             p['struct_name'] = 'My' + f.capitalize() + 'Struct'
                         params[f] = p
                     for it in (['range', 'next_and_back', 'table_inline'] if d['gapless'] else ['next_and_back', 'table', 'table_inline']):
@@ -253,6 +257,19 @@ def build(tier, seed):
                 feats = ['iter', 'names'] + (['range'] if it != 'table_inline' else [])
                 add(d, D.config(feats, {'iter': it}, {'iter': {'struct_name': sn}, 'names': {'struct_name': sn + 'N'}}), kind='structname', classes=['struct=' + sn, 'iter=' + str(it)])
             add(d, D.config(['names', 'as_str'], {}, {'names': {'struct_name': sn}}), kind='structname', classes=['struct=' + sn, 'names'])
+    # the same enum also carries the standard derives (incl. Default with #[default] on a variant) and enum-level foreign attributes
+    for r, label, vals in [('i8', 'holes_neg_later', [-10, -9, -5, -4, 3]), ('u16', 'gapless_pos', [5, 6, 7])]:
+        for dv, ea in [('Clone, Copy, PartialEq, Eq, PartialOrd, Ord, Hash, Debug, Default, EnumTools', ['#[non_exhaustive]']),
+                       ('EnumTools, Clone, Copy, PartialEq', ['/// documented', '#[allow(clippy::all)]', '#[cfg_attr(all(), allow(unused))]']),
+                       ('Clone, EnumTools, Copy, Default', ['#[must_use]'])]:
+            d = D.make_decl(r, label, vals, 'shuf', 'explicit', 'hostile', rnd, vis='pub')
+            d['derives'] = dv; d['enum_attrs'] = ea
+            if 'Default' in dv:
+                v = d['variants'][len(d['variants']) // 2]
+                v['attrs'] = list(v.get('attrs', [])) + ['#[default]']
+            for (a, f, t, it) in [('table', 'table', 'table', 'next_and_back'), ('match', 'match', 'match', 'table'), (None, None, None, None)]:
+                c = D.full_config(a, f, t, it, True, split=2, drop=('Debug',) if 'Debug' in dv else ())
+                add(d, c, kind='derives', classes=['derives=' + dv])
     # twins: enums expanded one after the other by the same compiler process whose token streams differ in exactly one place
     # (values / names / repr / visibility / one parameter) - whatever the generator remembers between expansions shows here
     tw = [0]
@@ -363,6 +380,19 @@ def build(tier, seed):
                 d = D.make_decl(r, label, vals, 'asc', 'explicit', 'default', rnd)
                 members.append(('repr=%s' % r, d, mk(d['gapless'])))
             family('reprfam', members)
+    # repr families under `auto` and partial feature sets: what auto resolves to depends on the repr's size, so the tokens may differ -
+    # but every member must be accepted and every item must meet its specification (no token comparison for these)
+    for label, vals in [('holes2', [0, 1, 9]), ('holes_neg_later', [-10, -9, -5, -4, 3]), ('gapless0', [0, 1, 2, 3])]:
+        for fs in (['iter'], ['iter', 'next'], ['iter', 'next_back'], ['iter', 'next', 'next_back'], ['iter', 'range'], ['iter', 'names'], ['iter', 'as_str'], ['iter', 'from_str'],
+                   ['iter', 'FromStr', 'range'], ['as_str', 'names'], ['as_str', 'Display'], ['from_str', 'FromStr'], ['try_from'], ['next'], ['names', 'IntoStr']):
+            members = []
+            for r in D.REPRS:
+                lo, hi = D.dom_bounds(r)
+                if vals[0] < lo or vals[-1] > hi:
+                    continue
+                d = D.make_decl(r, label, vals, 'asc', 'explicit', 'default', rnd)
+                members.append(('repr=%s' % r, d, D.config(fs)))
+            family('reprauto', members)
     # split families: the same features in 1, 2, 3 attributes
     for r, label, vals in sets[:4]:
         d = D.make_decl(r, label, vals, 'shuf', 'explicit', 'hostile', rnd)
@@ -486,10 +516,29 @@ def random_instance(rr):
     if en != 'E':
         d['enum_name'] = en
     gap = d['gapless']
+    # other derives and foreign attributes on the same item
+    extra = [x for x in ('PartialEq', 'Eq', 'PartialOrd', 'Ord', 'Hash', 'Debug', 'Default') if rr.random() < 0.25]
+    if 'Eq' in extra and 'PartialEq' not in extra:
+        extra.append('PartialEq')
+    if 'Ord' in extra:
+        extra += [x for x in ('PartialOrd', 'Eq', 'PartialEq') if x not in extra]
+    if 'PartialOrd' in extra and 'PartialEq' not in extra:
+        extra.append('PartialEq')
+    if cx in ('macro',):
+        extra = []
+    ds = ['Clone', 'Copy', 'EnumTools'] + extra
+    rr.shuffle(ds)
+    d['derives'] = ', '.join(ds)
+    if 'Default' in extra:
+        v = rr.choice(d['variants'])
+        v['attrs'] = list(v.get('attrs', [])) + ['#[default]']
+    d['enum_attrs'] = [a for a in ('#[non_exhaustive]', '/// doc', '#[allow(dead_code)]', '#[cfg_attr(all(), allow(unused))]', '#[must_use]') if rr.random() < 0.2]
     # configuration: a random feature set closed under the documented requirement (range needs iter), random modes and parameters
     feats = [f for f in D.ALL_FEATURES if rr.random() < rr.choice([0.3, 0.6, 1.0])] or ['into']
     if naming == 'featnames':
         feats = [f for f in feats if f not in ('MIN', 'MAX')] or ['next']
+    if 'Debug' in extra:
+        feats = [f for f in feats if f != 'Debug'] or ['into']
     if 'range' in feats and 'iter' not in feats:
         feats.append('iter')
     modes = {}
